@@ -47,6 +47,7 @@ func NewReport(prop, tier string, seed uint64) *Report {
 
 // Count registers one evaluated case; nontrivial cases are counted once per distinct key.
 func (r *Report) Count(key string, nontrivial bool, bucket string) {
+	tick()
 	r.Evaluations++
 	if bucket != "" {
 		r.Hist[bucket]++
